@@ -38,6 +38,15 @@ func C14Scenario() *Scenario {
 				}, "spec", "related")
 			})
 		}
+		failFor := "" // the parent for which customize calls made from event handlers fail at present
+		s.Progs["cc"].Raw = func(w *World, h *HookRec) *HookAnswer {
+			// (a pure function of the call and the scenario state: such calls are answered on
+			// the calling goroutine, the tape is not theirs to draw from)
+			if h.Kind == "customize" && h.Sync < 0 && failFor != "" && mstr(getMap(h.Req, "parent"), "name") == failFor {
+				return &HookAnswer{Code: 500, Body: []byte("scripted: customize hook unavailable")}
+			}
+			return nil
+		}
 		sig := copySig(s.Sig)
 		sig["ignoreStatusChanges"] = fmt.Sprint(cfg.IgnoreStatus)
 		w.Cfg["ignoreStatus"] = fmt.Sprint(cfg.IgnoreStatus)
@@ -61,9 +70,10 @@ func C14Scenario() *Scenario {
 			stages = append(stages, Stage{Name: fmt.Sprintf("round%d", r), Quiet: true, MaxSteps: 3000,
 				Do: func(w *World) {
 					ex = &expect{mustSync: map[string]bool{}, mustNot: map[string]bool{}, startStep: w.step}
+					failFor = ""
 					events := []string{"parent-spec", "parent-status", "parent-labels", "parent-unmanaged-edit", "child-edit", "child-delete", "child-status",
 						"orphan-create", "orphan-relabel", "foreign-child-edit", "wrong-uid-child", "wrong-kind-child", "related-edit", "related-relabel-away", "related-delete", "related-unselected-edit", "parent-create", "parent-delete",
-						"other-version-child", "related-edit-after-expiry", "parent-unmanage"}
+						"other-version-child", "related-edit-after-expiry", "parent-unmanage", "related-edit-after-expiry-customize-fails-for-another"}
 					ev := events[w.T.Pick(len(events), "event")]
 					ex.name = ev
 					w.FaultsFired["event:"+ev]++
@@ -226,7 +236,7 @@ func C14Scenario() *Scenario {
 								others()
 							}
 						}
-					case "related-edit", "related-relabel-away", "related-delete", "related-unselected-edit", "related-edit-after-expiry":
+					case "related-edit", "related-relabel-away", "related-delete", "related-unselected-edit", "related-edit-after-expiry", "related-edit-after-expiry-customize-fails-for-another":
 						// which parents currently have ConfigMap r0 of their namespace in their related set?
 						if po == nil || !managed(po) {
 							break
@@ -244,7 +254,21 @@ func C14Scenario() *Scenario {
 							break
 						}
 						selected := labelsOf(cur)["rel"] == "a"
-						if ev == "related-edit-after-expiry" {
+						if ev == "related-edit-after-expiry-customize-fails-for-another" {
+							// ... and when the event handler asks the customize hook again, it fails for one
+							// of the other parents: that must not keep this parent from being woken
+							failFor = ""
+							for _, q := range s.Parents {
+								if q != p && q.Get(w) != nil {
+									failFor = q.Name
+								}
+							}
+							if failFor == "" {
+								break
+							}
+							w.Probe("c14:customize-fails-for-another-parent")
+						}
+						if ev == "related-edit-after-expiry" || ev == "related-edit-after-expiry-customize-fails-for-another" {
 							// nothing touches the parents for longer than the customize answers are
 							// cached (20 minutes): the event handler has to ask the hook again
 							for waited := time.Duration(0); waited < 25*time.Minute; waited += time.Minute {
@@ -257,7 +281,7 @@ func C14Scenario() *Scenario {
 							w.Probe("c14:related-change-after-answer-cache-expired")
 						}
 						switch ev {
-						case "related-edit", "related-unselected-edit", "related-edit-after-expiry":
+						case "related-edit", "related-unselected-edit", "related-edit-after-expiry", "related-edit-after-expiry-customize-fails-for-another":
 							EditObject(w, ResConfigMap, ns, name, "user", func(o Object) { setPath(o, fmt.Sprint(w.step), "data", "v") })
 						case "related-relabel-away":
 							EditObject(w, ResConfigMap, ns, name, "user", func(o Object) { setPath(o, "zzz", "metadata", "labels", "rel") })
@@ -270,6 +294,9 @@ func C14Scenario() *Scenario {
 							qo := q.Get(w)
 							if qo == nil || !managed(qo) {
 								continue
+							}
+							if q.Name == failFor {
+								continue // its rules cannot be had at present: it will be looked at again later
 							}
 							for _, rule := range parseRules(w, qo) {
 								if rule.res == ResConfigMap && rule.selects(q.Res.Namespaced, q.NS, cur) {
